@@ -392,6 +392,10 @@ def exec_op(ctx: Ctx, op: dict, rec: dict) -> Any:
     raise ValueError(f"unknown op {kind}")
 
 
+def ctx_root(t) -> str:
+    return os.path.realpath(t.table_path)
+
+
 def stage_prebuilt(t, sim, op: dict):
     """Write a parquet file with the harness's own writer under data/, let `age` virtual seconds pass, and describe it
     as a DataFile under the requested path spelling."""
@@ -409,7 +413,16 @@ def stage_prebuilt(t, sim, op: dict):
     name = (op.get("name") or ("pre_" + op["tag"].replace(".", "_"))) + ".parquet"
     if op.get("dir"):
         name = f"{op['dir']}/{name}"
-    t.storage.write_file(f"data/{name}", content)
+    if op.get("raw"):
+        # written the way a user's own writer does it (pq.write_table / open+write): no fsync of the file, none of its
+        # directory - goes through the os seam so that the durability shadow sees it (local backend only)
+        full = os.path.join(t.storage.base_path if hasattr(t.storage, "base_path") else ctx_root(t), "data", name)
+        seams.SIM_OS.makedirs(os.path.dirname(full), exist_ok=True)
+        f = seams.sim_open(full, "wb")
+        f.write(content)
+        f.close()
+    else:
+        t.storage.write_file(f"data/{name}", content)
     if op.get("age"):
         sim.sleep(op["age"])
     spell = {"canon": f"/data/{name}", "noslash": f"data/{name}", "dslash": f"data//{name}",
